@@ -500,6 +500,124 @@ func sideBySide(r *ev.Run, id string, i int) {
 	}
 }
 
+// ---- several syncers over one locked sink (round 8) ---------------------------------------------
+
+// exclSink is a sink that is not safe for concurrent use and says so: it counts the calls that arrive
+// while another call is still inside it.  zapcore.Lock(exclSink) is what makes it shareable.
+type exclSink struct {
+	busy     atomic.Bool
+	overlaps atomic.Int64
+	mu       sync.Mutex
+	writes   [][]byte
+}
+
+func (s *exclSink) enter() {
+	if !s.busy.CompareAndSwap(false, true) {
+		s.overlaps.Add(1)
+	}
+	runtime.Gosched()
+}
+func (s *exclSink) Write(p []byte) (int, error) {
+	s.enter()
+	s.mu.Lock()
+	s.writes = append(s.writes, append([]byte(nil), p...))
+	s.mu.Unlock()
+	s.busy.Store(false)
+	return len(p), nil
+}
+func (s *exclSink) Sync() error { s.enter(); s.busy.Store(false); return nil }
+
+// sharedLocked: 2-3 BufferedWriteSyncers and one unbuffered writer share one zapcore.Lock(sink) and are
+// written to by goroutines of their own.  The lock wrapper is the sink's only protection, so every call
+// into the sink must go through it: no call may overlap another, every sink write consists of whole
+// lines of one writer, and every accepted line arrives exactly once, in its writer's order.
+func sharedLocked(r *ev.Run, id string, i int) {
+	g := rng.For(r.Seed, "c12/shared-locked", i)
+	sink := &exclSink{}
+	locked := zapcore.Lock(sink)
+	nb := g.Range(2, 3)
+	size := rng.Pick(g, []int{64, 128, 0})
+	per := g.Range(20, 120)
+	var bs []*zapcore.BufferedWriteSyncer
+	for j := 0; j < nb; j++ {
+		bs = append(bs, &zapcore.BufferedWriteSyncer{WS: locked, Size: size, FlushInterval: time.Hour, Clock: &hclock{}})
+	}
+	var wg sync.WaitGroup
+	var start sync.WaitGroup
+	start.Add(1)
+	bad := atomic.Int64{}
+	for j := 0; j <= nb; j++ {
+		var w zapcore.WriteSyncer = locked
+		if j < nb {
+			w = bs[j]
+		}
+		wg.Add(1)
+		go func(j int, w zapcore.WriteSyncer) {
+			defer wg.Done()
+			start.Wait()
+			for n := 0; n < per; n++ {
+				p := []byte(fmt.Sprintf("<w%d line %05d %s>\n", j, n, strings.Repeat(string(rune('a'+j)), (n*7)%23)))
+				if k, err := w.Write(p); k != len(p) || err != nil {
+					bad.Add(1)
+				}
+				if n%17 == 16 {
+					_ = w.Sync()
+				}
+			}
+		}(j, w)
+	}
+	start.Done()
+	wg.Wait()
+	for _, b := range bs {
+		_ = b.Stop()
+	}
+	r.Count("shared_locked_sink_lines", int64((nb+1)*per))
+	fail := func(msg string) {
+		r.Violate(ev.Violation{Case: id, Class: "bws-shared-sink", Msg: fmt.Sprintf("%d buffered syncers (Size=%d) and one direct writer over one zapcore.Lock(sink), %d lines each: %s", nb, size, per, msg)})
+	}
+	if n := bad.Load(); n != 0 {
+		fail(fmt.Sprintf("%d writes were not fully accepted", n))
+		return
+	}
+	if n := sink.overlaps.Load(); n != 0 {
+		fail(fmt.Sprintf("%d calls entered the sink while another call was inside it (a call that bypassed the lock wrapper)", n))
+		return
+	}
+	nextLine := make([]int, nb+1)
+	sink.mu.Lock()
+	defer sink.mu.Unlock()
+	for _, wr := range sink.writes {
+		owner := -1
+		for _, ln := range bytes.SplitAfter(wr, []byte("\n")) {
+			if len(ln) == 0 {
+				continue
+			}
+			var j, n int
+			if c, err := fmt.Sscanf(string(ln), "<w%d line %05d", &j, &n); c != 2 || err != nil || ln[len(ln)-1] != '\n' || j < 0 || j > nb ||
+				string(ln) != fmt.Sprintf("<w%d line %05d %s>\n", j, n, strings.Repeat(string(rune('a'+j)), (n*7)%23)) {
+				fail(fmt.Sprintf("a sink write holds something that is not a whole line: %q", tailB(ln, 80)))
+				return
+			}
+			if owner >= 0 && owner != j {
+				fail(fmt.Sprintf("one sink write mixes lines of writers %d and %d", owner, j))
+				return
+			}
+			owner = j
+			if n != nextLine[j] {
+				fail(fmt.Sprintf("writer %d: line %d arrived where line %d was due (lost, duplicated or reordered)", j, n, nextLine[j]))
+				return
+			}
+			nextLine[j]++
+		}
+	}
+	for j, n := range nextLine {
+		if n != per {
+			fail(fmt.Sprintf("writer %d: %d of %d accepted lines reached the sink after Stop", j, n, per))
+			return
+		}
+	}
+}
+
 // ---- a tick that arrives while a write is in progress ------------------------------------------
 
 type gateSink struct {
@@ -1101,6 +1219,24 @@ func Run(r *ev.Run) {
 			r.Violate(ev.Violation{Case: id, Class: "bws-panic", Msg: "panicked: " + h.Panicked})
 		} else if h.Dead {
 			r.Violate(ev.Violation{Case: id, Class: "bws-deadlock", Msg: "an operation on one of several syncers side by side never returned", Witness: h.Dump})
+			break
+		} else if h.Hung {
+			r.Inconclusive(id + ": exceeded the watchdog")
+			break
+		}
+	}
+	for i, n := 0, r.N(150, 3000); i < n; i++ {
+		id := fmt.Sprintf("c12/shared-locked/%d", i)
+		if !r.Want(id) {
+			continue
+		}
+		r.Eval(1)
+		r.Distinct(fmt.Sprintf("shared-locked|%d", i))
+		h := mon.Watch(60*time.Second, func() { sharedLocked(r, id, i) }, "BufferedWriteSyncer")
+		if h.Panicked != "" {
+			r.Violate(ev.Violation{Case: id, Class: "bws-panic", Msg: "panicked: " + h.Panicked})
+		} else if h.Dead {
+			r.Violate(ev.Violation{Case: id, Class: "bws-deadlock", Msg: "an operation on one of several syncers over one locked sink never returned", Witness: h.Dump})
 			break
 		} else if h.Hung {
 			r.Inconclusive(id + ": exceeded the watchdog")
